@@ -128,3 +128,39 @@ reg(
     "call-graph scoped source scan, def-use of time values, decorator option scan with positive fixture, gather-shape rule, set element typing",
     "DESIGN.md §2 C09",
 )
+
+reg(
+    "C18",
+    "Decides the validity-gate clause: in all 14 projection wrappers every gamma fit approximate_gamma_mom(m, v) is reached only when the path condition implies _valid_moments(m, v) (truth-table implication, catches and/or slips), a returned phase probability only when 0 <= pr <= 1 is implied, failure paths return NaN with unchanged input (node) or a NaN pair (mutation); and the dispatch table of the two EP kernels (which projection, which fixed age, which cavity) per fixed/free combination, classified semantically from the branch conditions. Agreement with numerical integration and exactness of the closed forms are not decided (the formulas' dimensions are checked under C06).",
+    "Trusted: boolean abstraction of guard atoms; recognised cavity shape posterior[X] - delta * message.",
+    "guard implication by truth table over enumerated returns; branch-condition equivalence classes; def-use role resolution",
+    "DESIGN.md §2 C18",
+)
+reg(
+    "C21",
+    "Decides the bookkeeping structure: each of the node update groups of propagate_likelihood uses one node and one direction consistently (direction follows the node's role as parent/child), one step size in cavity, likelihood and factor decay, the increment (posterior - cavity)/scale of the same node, the cap on posterior and scale with one eta, in order; the prior factor likewise; _rescale_factors rescales every message column exactly once through the node map that _assemble_factors uses and then resets scale; containers are built and passed in consistent roles; stores are control-dependent on the node not being fixed; iterate always ends by renormalising. The identity numerically (rounding) and convergence are not decided.",
+    "Trusted: statement-shape extraction resolved by def-use within the branch block.",
+    "update-group extraction + role-consistency obligations, sibling agreement between rescale and assemble, guard implication",
+    "DESIGN.md §2 C21",
+)
+reg(
+    "C05",
+    "Decides pairing/gate/wiring clauses: every node parameter store is followed by the _rescale cap on posterior and scale with the kernel's max_shape; skipped node updates return the input unchanged; mutation posteriors start NaN and are written only from projection results or by the capped quantile reprojection; max_shape is forwarded as a pure copy at every call site (no silent default); the phase vector is folded to [0.5, 1] last on every path. Finiteness/positivity of the numbers themselves is not decided.",
+    "Trusted: as C21; cap formula shape in _rescale.",
+    "pairing (store followed by cap) over update groups, who-may-write, parameter forwarding rule, path enumeration",
+    "DESIGN.md §2 C05",
+)
+reg(
+    "C03",
+    "Decides structural clauses: in the least-squares phase a non-zero correction of a node is control-dependent on that node not being fixed (slot-to-node mapping derived from the applying statements); the forced pass writes exactly the tested bound into the parent's slot and nothing else is written afterwards; fixed nodes are reported at their constraint with zero variance. The numerical fixed point of the alternating projections and topological edge order are not decided.",
+    "Trusted: tskit edge ordering; recognised store/guard shapes.",
+    "guard implication on correction stores, structural equality of tested and stored bound, def-use",
+    "DESIGN.md §2 C03+C27",
+)
+reg(
+    "C27",
+    "Decides: satisfied inputs leave before any store and the caller's array is never written (idempotence/no-op), the least-squares phase runs exactly max_iterations times and is off by default for contemporaneous samples, the forced pass raises a parent exactly to the bound that was tested (minimality), fixed nodes are not moved by the least-squares phase. The numerical result of constraining is not decided.",
+    "Trusted: as C03.",
+    "shape rules on the constraint kernel shared with C03",
+    "DESIGN.md §2 C03+C27",
+)
